@@ -483,14 +483,23 @@ def run(ctx):
     ctx.floor("C14.A allocation sinks in the region", nsinks, 2)
     ctx.counts["C14.A tainted fields"] = len(T.fields)
 
-    # ---- C14.B panic-site census
+    res = panic_census(ctx, "C14.B", reg, fns)
+    return res
+
+
+def panic_census(ctx, RULE, reg=None, fns=None):
+    """the panic-site census over the client-reachable region (shared with C15.4)"""
+    facts = ctx.facts
+    if reg is None:
+        reg = region.client_region(facts)
+        fns = {k: facts.fns[k] for k in reg}
     D = Discharger(ctx)
     sites = []
     for fid in sorted(fns):
         g = fns[fid]
         for bb, kind, desc, t in region.panic_sites(facts, g):
             sites.append((g, bb, kind, desc, t))
-    ctx.floor("C14.B panic-capable sites in the region", len(sites), 30)
+    ctx.floor("%s panic-capable sites in the region" % RULE, len(sites), 30)
     results = {}
     deferred = []
     for g, bb, kind, desc, t in sites:
@@ -537,9 +546,9 @@ def run(ctx):
         ok = r is not None
         if ok:
             ndis[r[0]] += 1
-        ctx.ob("C14.B", key, "a construct that can panic in client-reachable code is provably not triggerable",
+        ctx.ob(RULE, key, "a construct that can panic in client-reachable code is provably not triggerable",
                ok, g.loc(bb), ("%s: %s" % r) if ok else "no discharge rule applies (%s); call chain: %s" % (desc, " -> ".join(short(x) for x in region.chain(reg, g.id))))
-    ctx.counts["C14.B discharged by rule"] = dict(ndis)
+    ctx.counts["%s discharged by rule" % RULE] = dict(ndis)
     return {"panic_sites": len(sites), "discharge_rules_used": dict(ndis)}
 
 
